@@ -202,11 +202,13 @@ def extraKVs (esc : Bytes → Bytes) (sc : Scenario) (s : Scope) : List KV :=
 def extraKeys (esc : Bytes → Bytes) (sc : Scenario) : List Bytes := (extraKVs esc sc ⟨[], [], []⟩).map (·.1)
 
 /-- "valid attribute set" for a series: every (sanitised) key is a label name the registry admits and none collides with
-the labels the exporter adds itself; in the UTF-8 scheme keys are unique (attribute.Set invariant) -/
+the labels the exporter adds itself; in the UTF-8 scheme keys are unique (attribute.Set invariant); every value is valid
+UTF-8 (the registry refuses a series with another label value) -/
 def labelsAdmissible (esc : Bytes → Bytes) (legacy : Bool) (attrs : List KV) (extra : List Bytes) : Bool :=
   let e := effEsc esc legacy
   attrs.all (fun kv => labelNameOK legacy (e kv.1) && !extra.contains (e kv.1)) &&
-  extra.all (labelNameOK legacy) && nodupKeys extra && (legacy || nodupKeys (attrs.map (·.1)))
+  extra.all (labelNameOK legacy) && nodupKeys extra && (legacy || nodupKeys (attrs.map (·.1))) &&
+  attrs.all (fun kv => Utf8.validString kv.2)
 
 structure Seen where
   name : Bytes
@@ -222,7 +224,8 @@ def instValid (esc : Bytes → Bytes) (sc : Scenario) (i : Inst) : Bool :=
   i.points.all (fun p => labelsAdmissible esc sc.cfg.legacy p.attrs (extraKeys esc sc))
 
 def resValid (esc : Bytes → Bytes) (sc : Scenario) : Bool :=
-  sc.res.all (fun kv => labelNameOK sc.cfg.legacy (effEsc esc sc.cfg.legacy kv.1))
+  sc.res.all (fun kv => labelNameOK sc.cfg.legacy (effEsc esc sc.cfg.legacy kv.1) && Utf8.validString kv.2) &&
+  sc.scopes.all (fun s => Utf8.validString s.name && Utf8.validString s.version)
 
 def allInsts (sc : Scenario) : List (Scope × Inst) := sc.scopes.flatMap (fun s => s.insts.map (fun i => (s, i)))
 
@@ -241,40 +244,39 @@ def scenarioValid (esc : Bytes → Bytes) (sc : Scenario) : Bool :=
 
 def isInfo (n : Bytes) : Bool := n == b "target_info" || n == b "otel_scope_info"
 
+/-- one data point against the series of its family: (ok, series expected present, F28 misses).
+A point F28 applies to (exponential histogram, scale outside −4..8) is expected to be ABSENT and is counted as an F28
+miss without looking for a series with its labels: another data point of the family (a second instrument of the same
+family, or the same attribute set recorded through an int and a float instrument) may legitimately own a series with
+exactly those labels. That nothing is exposed for the F28 point is enforced by the series count in `promOK`. Every other
+point must own the series with its labels, with faithful values and exemplars. -/
+def checkPoint (esc : Bytes → Bytes) (sc : Scenario) (s : Scope) (typ : MType) (g : Family) (p : Point) : Bool × Nat × Nat :=
+  let isF28 := match p.payload with
+    | .expo _ dp => F28_applies dp
+    | _ => false
+  if isF28 then (true, 0, 1)
+  else match g.series.find? (seriesMatches esc sc s p.attrs) with
+    | some t => (payloadFaithful p.payload t.payload &&
+        exemplarsFaithful esc sc.cfg.legacy typ p.payload p.exemplars t.ex, 1, 0)
+    | none => (false, 0, 0)
+
 /-- checks of one instrument; returns (ok, number of series expected present, number of F28 misses) -/
 def checkInst (esc : Bytes → Bytes) (sc : Scenario) (fams : List Family) (seen : List Seen) (s : Scope) (i : Inst) :
     Bool × Nat × Nat :=
   let typ := i.dtype.mtype
   let n := refName esc sc.cfg i.name i.unit typ
-  let first := seen.find? (fun x => x.name == n)
-  match first with
-  | some f => if f.typ != typ then (true, 0, 0) else
-      -- same family as an earlier instrument: its help wins
-      match fams.find? (fun g => g.name == n) with
-      | none => (i.points.all (fun p => match p.payload with | .expo _ dp => F28_applies dp | _ => false), 0,
-                 i.points.length)
-      | some g =>
-        let r := i.points.map (fun p =>
-          match g.series.find? (seriesMatches esc sc s p.attrs) with
-          | some t => (payloadFaithful p.payload t.payload &&
-              exemplarsFaithful esc sc.cfg.legacy typ p.payload p.exemplars t.ex, 1, 0)
-          | none => match p.payload with
-            | .expo _ dp => (F28_applies dp, 0, 1)
-            | _ => (false, 0, 0))
-        (g.typ == typ && g.help == f.desc && r.all (·.1), (r.map (·.2.1)).sum, (r.map (·.2.2)).sum)
-  | none =>
-    match fams.find? (fun g => g.name == n) with
+  -- the help of the family is the description of the first instrument registered for it (also when all of that
+  -- instrument's series are dropped by F28: the family is registered before the data points are converted)
+  let (dropped, help) := match seen.find? (fun x => x.name == n) with
+    | some f => (f.typ != typ, f.desc)
+    | none => (false, i.desc)
+  if dropped then (true, 0, 0)
+  else match fams.find? (fun g => g.name == n) with
     | none => (i.points.all (fun p => match p.payload with | .expo _ dp => F28_applies dp | _ => false), 0,
                i.points.length)
     | some g =>
-      let r := i.points.map (fun p =>
-        match g.series.find? (seriesMatches esc sc s p.attrs) with
-        | some t => (payloadFaithful p.payload t.payload &&
-              exemplarsFaithful esc sc.cfg.legacy typ p.payload p.exemplars t.ex, 1, 0)
-        | none => match p.payload with
-          | .expo _ dp => (F28_applies dp, 0, 1)
-          | _ => (false, 0, 0))
-      (g.typ == typ && g.help == i.desc && r.all (·.1), (r.map (·.2.1)).sum, (r.map (·.2.2)).sum)
+      let r := i.points.map (checkPoint esc sc s typ g)
+      (g.typ == typ && g.help == help && r.all (·.1), (r.map (·.2.1)).sum, (r.map (·.2.2)).sum)
 
 def checkInsts (esc : Bytes → Bytes) (sc : Scenario) (fams : List Family) :
     List Seen → List (Scope × Inst) → Bool × Nat × Nat
